@@ -36,27 +36,28 @@ inline std::string dec(long double v) {
   return b;
 }
 
-// tiny JSON object builder
+// tiny JSON object builder (copyable)
 struct J {
-  std::ostringstream o; bool first = true;
-  J() { o << "{"; }
-  void sep() { if (!first) o << ","; first = false; }
-  J& s(const char* k, const std::string& v) { sep(); o << "\"" << k << "\":\"" << jesc(v) << "\""; return *this; }
-  J& i(const char* k, long long v) { sep(); o << "\"" << k << "\":" << v; return *this; }
-  J& u(const char* k, unsigned long long v) { sep(); o << "\"" << k << "\":" << v; return *this; }
-  J& d(const char* k, long double v) { sep(); o << "\"" << k << "\":" << dec(v); return *this; }
-  J& raw(const char* k, const std::string& v) { sep(); o << "\"" << k << "\":" << v; return *this; }
+  std::string o; bool first = true;
+  J() : o("{") {}
+  void sep() { if (!first) o += ","; first = false; }
+  void key(const char* k) { sep(); o += "\""; o += k; o += "\":"; }
+  J& s(const char* k, const std::string& v) { key(k); o += "\"" + jesc(v) + "\""; return *this; }
+  J& i(const char* k, long long v) { key(k); o += std::to_string(v); return *this; }
+  J& u(const char* k, unsigned long long v) { key(k); o += std::to_string(v); return *this; }
+  J& d(const char* k, long double v) { key(k); o += dec(v); return *this; }
+  J& raw(const char* k, const std::string& v) { key(k); o += v; return *this; }
   template <class V> J& vec(const char* k, const V& v) {  // vector of scalars as hex-floats (exact)
-    sep(); o << "\"" << k << "\":[";
-    for (int q = 0; q < (int)v.size(); ++q) { if (q) o << ","; o << "\"" << hexd((long double)v[q]) << "\""; }
-    o << "]"; return *this;
+    key(k); o += "[";
+    for (int q = 0; q < (int)v.size(); ++q) { if (q) o += ","; o += "\"" + hexd((long double)v[q]) + "\""; }
+    o += "]"; return *this;
   }
   template <class V> J& vecd(const char* k, const V& v) {  // decimal, for readability
-    sep(); o << "\"" << k << "\":[";
-    for (int q = 0; q < (int)v.size(); ++q) { if (q) o << ","; o << dec((long double)v[q]); }
-    o << "]"; return *this;
+    key(k); o += "[";
+    for (int q = 0; q < (int)v.size(); ++q) { if (q) o += ","; o += dec((long double)v[q]); }
+    o += "]"; return *this;
   }
-  std::string str() const { return o.str() + "}"; }
+  std::string str() const { return o + "}"; }
 };
 
 struct EventLog {
